@@ -116,6 +116,11 @@ fn raw_core(which: Which, case: &RawCase) -> CaseOutcome
         o.evals += 1;
     }
     let in_scope: Vec<String> = files.iter().filter(|(_, b)| is_utf8(b)).map(|(r, _)| r.clone()).collect();
+    if exhaustion_regime_raw(&files, cfg)
+    {
+        o.class("excluded-id-range-exhaustion-regime");
+        return o;
+    }
     let pair = run_pair(&tree);
     o.evals += 2;
     let mut devs = Vec::new();
@@ -301,6 +306,11 @@ fn c06_check(case: &C06Case) -> CaseOutcome
             (t, rt.cfg.clone(), Vec::new(), f)
         },
     };
+    if exhaustion_regime_raw(&raw_files, &cfg)
+    {
+        o.class("excluded-id-range-exhaustion-regime");
+        return o;
+    }
     let sb = Sandbox::new();
     materialise(&sb.proj(), &tree);
     let run1 = simple_run(&sb, false);
